@@ -462,6 +462,18 @@ def check_branch_pairs(prog, ctx):
                 ctx.check(km == kc and not m.args and not c.args, rid, f, node, f"{recv}.modify({km}) vs {recv}.copy_with({kc})"[:160],
                           f"`{recv}.modify(...)` (in place) and `{recv}.copy_with(...)` (out of place) install the same "
                           f"{sorted(km)} values")
+        # the same switch written as a conditional method alias: `update = x.modify if inplace else x.copy_with; update(k=v, ...)`
+        # installs the same values in both cases by construction
+        for a in ast.walk(f.node):
+            if isinstance(a, ast.Assign) and isinstance(a.value, ast.IfExp) and src(a.value.test) in (FLAG, f"not {FLAG}") \
+                    and isinstance(a.value.body, ast.Attribute) and isinstance(a.value.orelse, ast.Attribute) \
+                    and {a.value.body.attr, a.value.orelse.attr} == {"modify", "copy_with"} \
+                    and src(a.value.body.value) == src(a.value.orelse.value) and isinstance(a.targets[0], ast.Name):
+                inplace_attr = a.value.body.attr if src(a.value.test) == FLAG else a.value.orelse.attr
+                uses = [c for c in ast.walk(f.node) if isinstance(c, ast.Call) and isinstance(c.func, ast.Name) and c.func.id == a.targets[0].id]
+                n += 1
+                ctx.check(inplace_attr == "modify" and bool(uses), rid, f, a, src(a)[:120],
+                          f"`{src(a)[:80]}`: the in-place case calls modify, the other copy_with, with one shared argument list ({len(uses)} call(s))")
     ctx.minimum(rid, 5, "sync_charges, _fuse_core, unfuse, drop_misaligned_sectors (a, b)")
 
 
